@@ -5,6 +5,8 @@ CONSTANTS
   MaxList = 2
   VecDom = {0}
   MaxVec = 1
+  SciIn = {}
+  SciNeg = {}
   Known = {}
 INVARIANT Legal TotalOrder
 PROPERTY LegalReplies ConstructionExact CmpSound SortMinMaxSound ParetoSound
